@@ -258,9 +258,6 @@ def _ratio_claims(name, code, spec, shape, mk=None):
         return [("true", "one_value_returned", False, "result shape %s" % (shape,))]
     if mk is not None and mk.symbolic and _plainly_false(mk, code - spec):
         return [("eq", name, [code], [spec])]
-    if mk is not None and not mk.symbolic:
-        # same claim in both forms: the log form is the one reported when the identity is false
-        return [("eq", name, [sexp(code - spec)], [1.0])]
     return [("eq", name, [sexp(code - spec)], [1.0])]
 
 
@@ -1242,7 +1239,9 @@ def obligations(tier, seed):
 
     def sc(name, factory, args, clause, **kw):
         kw.setdefault("max_paths", 20000)
-        kw.setdefault("timeout", 900)
+        # normal cost is < 15 s per obligation; a tree on which the algebra no longer collapses (wrong A_i/B_i) makes the symbolic
+        # run itself explode: bounded by the budget -> UNDECIDED for that obligation, the numeric (B) obligations still decide
+        kw.setdefault("timeout", 240 if not thorough else 600)
         obs.append(_scenario_ob(name, factory, args, clause, seed, **kw))
 
     # ---- options (U) and their effect on real objects (B)
